@@ -168,7 +168,9 @@ def case_strategy(maxlen):
 def layered_cases():
     """ciphertext layouts the tool's own --encrypt cannot produce: a second EncryptedData (holding a forged assertion) next to / inside / instead of the genuine plaintext"""
     out = []
-    for layout in ('genuine+enc(forged)', 'enc(forged)+genuine', 'enc(genuine+enc(forged))', 'enc(enc(forged))', 'two-encrypted-assertions', 'enc(forged)-only'):
+    for layout in ('genuine+enc(forged)', 'enc(forged)+genuine', 'enc(genuine+enc(forged))', 'enc(enc(forged))', 'two-encrypted-assertions', 'enc(forged)-only',
+                   # a bare xenc:EncryptedData (no EncryptedAssertion wrapper) as a direct child of the Response, next to a genuine encrypted / plain assertion
+                   'encrypted-assertion+bare-encrypted-data', 'bare-encrypted-data+encrypted-assertion', 'plain-assertion+bare-encrypted-data', 'bare-encrypted-data-in-extensions'):
         for sigcopy in (True, False):
             for setting in range(7):
                 for rsign in (False, True):
@@ -202,7 +204,20 @@ def run_layered(case):
         inner = [build.encrypt_raw(genuine, 2, enc_id='ED1'), ef]
     else:
         inner = [ef]
-    rr = dict(r, assertions=['<saml:EncryptedAssertion>%s</saml:EncryptedAssertion>' % x for x in inner])
+    wrap = lambda x: '<saml:EncryptedAssertion>%s</saml:EncryptedAssertion>' % x
+    extra = {}
+    if lay == 'encrypted-assertion+bare-encrypted-data':
+        items = [wrap(build.encrypt_raw(genuine, 2, enc_id='ED1')), ef]
+    elif lay == 'bare-encrypted-data+encrypted-assertion':
+        items = [ef, wrap(build.encrypt_raw(genuine, 2, enc_id='ED1'))]
+    elif lay == 'plain-assertion+bare-encrypted-data':
+        items = [genuine, ef]
+    elif lay == 'bare-encrypted-data-in-extensions':
+        items = [wrap(build.encrypt_raw(genuine, 2, enc_id='ED1'))]
+        extra = {'extensions': ef}
+    else:
+        items = [wrap(x) for x in inner]
+    rr = dict(r, assertions=items, **extra)
     if case['rsign']:
         rr['signature'] = build.sig_template(rr['id'], 'sha256', ('x509', world.cert_body(1)))
     doc = build.response_xml(rr)
